@@ -345,5 +345,8 @@ def r_fill_writes(rep, prog):
 def run(rep, programs):
     prog = programs["core"]
     r_init_coverage(rep, prog)
+    from props import c04
+    c04.r_stats_at(rep, prog)          # "reports every frame free": the queries read the initialised state (also for the partial last huge frame)
+    c04.r_stats_exact(rep, prog)
     c05.r_rebuild_order(rep, prog)
     c05.r_init_dispatch(rep, prog)
